@@ -56,6 +56,7 @@ def predict (input : String) : Option Pred :=
         | "flip" => (true, honest, true, true, false)
         | "cnt" => (true, honest, true, true, false)
         | "trunc" => (true, honest, true, true, false)
+        | "sweep" => (true, honest, true, true, false)        -- every altered proof: none verifies
         | "bit" => if (n + arg) / 8 < n / 8 + 1 then (true, honest ++ ["extra"], true, true, false)
                    else (false, honest, true, true, true)
         | "all" => if k == n then (false, honest, true, true, true) else (true, all, true, true, true)
